@@ -269,6 +269,7 @@ const (
 	evFunc
 	evFnMap
 	evFnFlatMap
+	evZero // the zero-value lazy.Eval[int]{}: documented by Resume as evaluating to the zero value
 	evNOps
 )
 
@@ -277,7 +278,7 @@ func (c *c16) genEval(depth int, budget *int) *ev {
 	n := &ev{c: 1 + r.Choose(9, "c")}
 	*budget--
 	if depth >= 6 || *budget <= 0 {
-		n.op = r.Choose(2, "evleaf")
+		n.op = []int{evDone, evCall, evZero}[r.Choose(3, "evleaf")]
 		return n
 	}
 	n.op = r.Choose(evNOps, "evop")
@@ -294,7 +295,7 @@ func (c *c16) genEval(depth int, budget *int) *ev {
 }
 
 func (n *ev) write(sb *strings.Builder) {
-	names := [...]string{"Done", "Call", "TailCall", "TailCallN", "Map", "FlatMap", "Map2", "Func", "lazy.Map", "lazy.FlatMap"}
+	names := [...]string{"Done", "Call", "TailCall", "TailCallN", "Map", "FlatMap", "Map2", "Func", "lazy.Map", "lazy.FlatMap", "ZeroEval"}
 	fmt.Fprintf(sb, "%s%d", names[n.op], n.c)
 	if len(n.kids) > 0 {
 		sb.WriteString("(")
@@ -315,6 +316,8 @@ func (n *ev) strict() int {
 	switch n.op {
 	case evDone, evCall:
 		return n.c
+	case evZero:
+		return 0
 	case evTailCall:
 		return n.kids[0].strict()
 	case evTailCallN:
@@ -341,6 +344,8 @@ func (n *ev) strict() int {
 
 func (c *c16) buildEval(n *ev, path string) lazy.Eval[int] {
 	switch n.op {
+	case evZero:
+		return lazy.Eval[int]{}
 	case evDone:
 		return lazy.Done(n.c)
 	case evCall:
